@@ -679,7 +679,7 @@ func init() {
 	register("C16", func(c *engine.Ctx) {
 		c.Rule = "random schemas (all features; titles up to 60 characters, enums of up to 12 members) x pairs of option sets differing in exactly one option: --only-models (same type declarations; no func, var, or import besides those types need), --tags (equal after erasing tags), --capitalization / --struct-name-from-title / --schema-root-type (equal after abstracting declared identifiers; --schema-root-type also at the command line: invocations with and without it for a referenced and for the main schema x other per-schema flags {none, package + output, output only, package only} x stdout / -o x one or both files as arguments), --extra-imports (equal after deleting the YAML methods and the yaml import; the JSON behaviour of the two compiled programs is the same on the documents). Distinct = distinct (option, schema shape)."
 		c.Proofs([]string{"GJS.Props.C16", "GJS.Props.FlatGen", "GJS.Props.TreeOptions"}, []string{
-			"GJS.Props.Tree.tree_extra_imports_same_decls", "GJS.Props.Tree.tree_only_models_keeps_types", "GJS.Props.Tree.treeDecls_congr",
+			"GJS.Props.Tree.tree_extra_imports_same_decls", "GJS.Props.Tree.tree_tags_change_only_tags", "GJS.Props.Tree.tree_only_models_keeps_types", "GJS.Props.Tree.treeDecls_congr",
 			"GJS.Props.Flat.run_flat_gen", "GJS.Props.Flat.extra_imports_same_decls", "GJS.Props.Flat.only_models_keeps_type", "GJS.Props.Flat.root_type_changes_only_name", "GJS.Props.Flat.tags_change_only_tags",
 			"GJS.Props.C16.minSized_off_is_identity", "GJS.Props.C16.rootName_mapping_wins", "GJS.Props.C16.rootName_title_only_with_flag",
 			"GJS.Props.C16.rootType_flag_never_changes_routing", "GJS.Props.C16.rootType_alone_keeps_routing", "GJS.Props.C16.rootType_alone_sets_root", "GJS.Props.C16.package_without_output_is_external",
